@@ -176,8 +176,14 @@ def check(m, run):
     msh_ok = all(o.ok for o in run.obs[n0:])
     with run.corroborating(msh_ok, 'MSH2 (SK1.index-safety on labelled grids)', rules=('LY1.prealloc-stride', 'PJ1.step-of-own-direction', 'FN1.consecutive-numbering', 'QC1.cell-corners')):
         _triangle_mesh_syntactic(m, run, tm)
-    cq, arr_q = quad_corners(run, qm, lambda c: norm(c.func) == 'Quad')
-    rl.ly1_prealloc(m, run, qm, arrays={arr_q: ast.parse('size_v', mode='eval').body})
+    # make_quad_mesh is decided on labelled grids (QM2: one quad per cell, the four corners of that cell in cyclic order, vertices numbered
+    # like the points); the rules that read the corner index arithmetic of the pinned spelling corroborate
+    n1 = len(run.obs)
+    skel_drivers.qm2(m, run)
+    qm_ok = all(o.ok for o in run.obs[n1:])
+    with run.corroborating(qm_ok, 'QM2', rules=('QC1.cell-corners', 'LY1.prealloc-stride')):
+        cq, arr_q = quad_corners(run, qm, lambda c: norm(c.func) == 'Quad')
+        rl.ly1_prealloc(m, run, qm, arrays={arr_q: ast.parse('size_v', mode='eval').body})
     _rest(m, run)
 
 
